@@ -3,7 +3,7 @@
 # compares the passing set with /root/.vp/BASELINE.json stable_pass.
 # usage: baseline.sh [repo_dir] [pkg patterns...]   (default: /repo ./...)
 export GOFLAGS=-mod=mod GOPROXY=off   # GOTOOLCHAIN left at auto and GOSUMDB unset: go.mod selects the cached go1.24.0, which tolerates the emptied packages
-unset GOWORK
+unset GOWORK GOTOOLCHAIN GOSUMDB
 REPO=${1:-/repo}; shift
 PATS=${@:-./...}
 OUT=$(mktemp /tmp/baseline.XXXXXX.json)
